@@ -1100,7 +1100,24 @@ def atom_same(u, v):
     if isinstance(u, U32):
         return s_and(u.fmt == v.fmt, s_eq(u.n, v.n))
     if isinstance(u, Tok):
-        return u.d is v.d and u.fmt == v.fmt and u.chain == v.chain
+        if u.d is v.d and u.fmt == v.fmt and u.chain == v.chain:
+            return True
+        if u.chain == v.chain and u.width == v.width:
+            # renderings of (possibly different) dates under (possibly different) all-digit formats: equal iff the numbers they spell are equal
+            # ('010203' is 2001-02-03 under %y%m%d and 2003-02-01 under %d%m%y)
+            try:
+                from . import models
+                fu, fv = models._digit_fields([Tok(u.d, u.fmt, u.width)]), models._digit_fields([Tok(v.d, v.fmt, v.width)])
+            except Exception:
+                fu = fv = None
+            if fu and fv:
+                def spelled(fs):
+                    n = 0
+                    for val, w in fs:
+                        n = n * (10 ** w) + val
+                    return n
+                return s_eq(spelled(fu), spelled(fv))
+        return False
     if isinstance(u, HexP):
         if u.up != v.up or u.chain != v.chain:
             return False
@@ -1215,7 +1232,7 @@ def _same_piece(p, q):
 def _codepoint_fill(src, n):
     """deterministic position-coded content for an opaque source (printable, codec safe)"""
     # letters, plus the characters whose EBCDIC code differs between cp500 and cp037 (a code-page mix-up shows in the witness)
-    alphabet = 'ABCDEFGHIJKLMNOPQRSTUVWXYZabcdefghijklmnopqrstuvwxyz!^[]|\xe9\n\x1c"{},\\%'
+    alphabet = 'ABCDEFGHIJKLMNOPQRSTUVWXYZabcdefghijklmnopqrstuvwxyz!^[]|\xe9\n\x1c"{},\\%='
     k = sum(ord(c) for c in src.name) % len(alphabet)
     return ''.join(alphabet[(k + 7 * i) % len(alphabet)] for i in range(n))
 
